@@ -190,8 +190,10 @@ func (t *TRef) Base() string {
 }
 
 type ArgDef struct {
-	N    string `json:"n"`
-	Type *TRef  `json:"type"`
+	N      string `json:"n"`
+	Type   *TRef  `json:"type"`
+	HasDef bool   `json:"hasDef"`
+	Def    Value  `json:"def"`
 }
 
 type FieldDef struct {
@@ -405,7 +407,11 @@ func (u *Universe) SDL() string {
 		case "INPUT_OBJECT":
 			b.WriteString("input " + n + " {\n")
 			for _, f := range t.InFields {
-				b.WriteString("  " + f.N + ": " + f.Type.String() + "\n")
+				b.WriteString("  " + f.N + ": " + f.Type.String())
+				if f.HasDef {
+					b.WriteString(" = " + Lit(f.Def))
+				}
+				b.WriteString("\n")
 			}
 			b.WriteString("}\n")
 		}
